@@ -55,10 +55,11 @@ impl<W: io::Write> Writer<W> {
     pub fn write_with<C, T: Encode<C>>(&mut self, val: T, ctx: &mut C) -> Result<usize, Error> {
         self.buffer.resize(4, 0u8);
         minicbor::encode_with(val, &mut self.buffer, ctx)?;
-        if self.buffer.len() - 4 > self.max_len {
+        let len = self.buffer.len() - 4;
+        if len > self.max_len {
             return Err(Error::InvalidLen)
         }
-        let prefix = (self.buffer.len() as u32 - 4).to_be_bytes();
+        let prefix = u32::try_from(len).map_err(|_| Error::InvalidLen)?.to_be_bytes();
         self.buffer[.. 4].copy_from_slice(&prefix);
         self.writer.write_all(&self.buffer)?;
         Ok(self.buffer.len() - 4)
